@@ -68,7 +68,9 @@ TYPED = [
 REDUCED = [None, True, -1, 2 ** 53 + 1, 1.5, "a b", "a", b"a", [1], {1: "a"}]
 EXTRA_KEYS = [("zz_unknown", 1), ("x_custom", 1), (1, 1), (None, 1), (b"k", 1), ("", 1),
               # keys that name parameters of the implementation's own constructors
-              ("self", True), ("kwargs", True)]
+              ("self", True), ("kwargs", True),
+              # an integer key beyond the int -> str digit limit (CBOR / MsgPack maps may have integer keys)
+              (BIGNUM, 1)]
 
 
 def main(ctx):
@@ -690,7 +692,7 @@ def job(a):
                     st = _copy(w)
                     _get(st, path)[k] = v
                     env.structure(st, field + ".<%s>" % type(k).__name__, None,
-                                  "%s %s: add key %r at %s" % (cls, label, k, _path_str(path)))
+                                  "%s %s: add key %s at %s" % (cls, label, R(k), _path_str(path)))
             if isinstance(target, list) and path:
                 for v in (None, "a", -1, {}, [1]):
                     st = _copy(w)
